@@ -362,7 +362,9 @@ func (w *world) checkStealOnWrite(key string, svc *v1.Service) {
 			}
 			if !specalloc.MayShare(svc, view) {
 				sig := ""
-				if inc.curSeen != nil && len(statusAddrs(inc.curSeen)) > 0 {
+				if containsAddr(inc.staleDropped[ok], a) {
+					sig = "C03/stale-cached-object-drops-allocation"
+				} else if inc.curSeen != nil && len(statusAddrs(inc.curSeen)) > 0 {
 					sig = "C06/restart-steal-by-service-whose-own-record-is-replaced"
 					if completesDualStack(inc.curSeen, statusAddrs(inc.curSeen), statusAddrs(svc)) {
 						sig = "C06/restart-steal-by-preferdualstack-completion"
